@@ -1308,9 +1308,8 @@ func (p *PairV2) AddLastSwapStepWithOrders(amount0In, amount1Out *big.Int, buy b
 
 	reserve0, reserve1 := p.Reserves()
 
+	p.orders.mu.RLock()
 	ordrs := make(map[uint32]*Limit, len(p.orders.list))
-	dirtyOrdrs := make(map[uint32]struct{}, len(p.dirtyOrders.list))
-
 	for k, v := range p.orders.list {
 		if v == nil {
 			ordrs[k] = nil
@@ -1318,9 +1317,14 @@ func (p *PairV2) AddLastSwapStepWithOrders(amount0In, amount1Out *big.Int, buy b
 		}
 		ordrs[k] = v.clone()
 	}
+	p.orders.mu.RUnlock()
+
+	p.dirtyOrders.mu.RLock()
+	dirtyOrdrs := make(map[uint32]struct{}, len(p.dirtyOrders.list))
 	for k, v := range p.dirtyOrders.list {
 		dirtyOrdrs[k] = v
 	}
+	p.dirtyOrders.mu.RUnlock()
 
 	unsortedDirtySellOrders := map[uint32]struct{}{}
 	p.unsortedDirtySellOrders.mu.Lock()
